@@ -65,6 +65,10 @@ def task_average(pr, repo, nconf, clauses=('census', 'means', 'marks')):
                 for gi in range(2):
                     if pres[(gi, c)]:
                         g = mk_conf_group(repo, c, gi, partner)
+                        if gi == 0 and c == names[1]:
+                            # in the second conformation the Coulomb partner of group 0 is out of range: no such determinant there
+                            # (the mean is still over the conformations that contain the GROUP)
+                            g.attrs['determinants']['coulomb'] = []
                         gs.append(g)
                         allg[(gi, c)] = g
                 confs[c] = record('conf' + c, CCls, groups=gs, parameters=None, non_covalently_coupled_groups=False, chains=['A'])
